@@ -131,6 +131,18 @@ func runMulti(rt *rapid.T, st *stats.Collector, focus []string, gapCheck bool) (
 			}
 			afterCommit(l, out)
 		},
+		"atomicBulk": func(t *rapid.T) {
+			l := pick(t)
+			if n := w.AtomicBulk(t, l); n > 0 {
+				lastID[l.Name], lastLog[l.Name] = l.M.Txs[len(l.M.Txs)-1].ID, l.M.Logs[len(l.M.Logs)-1].ID
+				pending[l.Name], pendingLog[l.Name] = 0, 0
+				sum.Commits += n
+			} else {
+				pending[l.Name]++
+				pendingLog[l.Name]++
+				sum.Failures++
+			}
+		},
 		"revert": func(t *rapid.T) {
 			l := pick(t)
 			if len(l.M.Txs) == 0 {
